@@ -159,17 +159,19 @@ func (cm *connManager) handleNewTCPConn(regManager *cj.RegistrationManager, clie
 	var asn uint = 0
 	var cc string
 	var err error
+	// A failed GeoIP lookup only costs the per-country statistics: the connection is handled like any
+	// other one. Returning here would close it at once, before any deadline and without reading.
 	cc, err = regManager.GetGeoIP().CC(remoteIP)
 	if err != nil {
 		logger.Errorln("Failed to get CC:", generalizeErr(err))
-		return
+		cc = ""
 	}
 	if cc != "unk" {
 		// logger.Infoln("CC not unk:", cc, "ASN:", asn) // TESTING
 		asn, err = regManager.GetGeoIP().ASN(remoteIP)
 		if err != nil {
 			logger.Errorln("Failed to get ASN:", generalizeErr(err))
-			return
+			asn = 0
 		}
 	}
 	// logger.Infoln("CC:", cc, "ASN:", asn) // TESTING
